@@ -143,6 +143,14 @@ def _pair(draw):
             L += [[{v: 1.0}, b], [{v: -1.0}, -b + draw(st.sampled_from([0, 1]))]]
             R.append([{v: draw(st.sampled_from([1.0, 2.0, 0.5]))}, 0.0])
             R[-1][1] = R[-1][0][v] * b
+    if draw(st.integers(0, 9)) == 0:
+        # a constraint without variables (0 <= c), as left behind when every variable of a term cancels: satisfied ones change
+        # nothing, a violated one makes its side infeasible
+        side = draw(st.sampled_from(["L", "R"]))
+        c = float(draw(st.sampled_from([0, 1, 2, -1, -0.5, -2])))
+        tgt = L if side == "L" else R
+        tgt.insert(draw(st.integers(0, len(tgt))), [{}, c])
+        cls += "+varfree-%s-%s" % (side, "sat" if c >= 0 else "viol")
     return cls, L, R, pool, w
 
 
